@@ -19,7 +19,7 @@ from concurrent.futures import ProcessPoolExecutor
 REPO = os.environ.get('VERIF_REPO', '/repo')
 VERIF = os.path.dirname(os.path.dirname(os.path.abspath(__file__)))
 CACHE = os.path.join(VERIF, '.cache')
-FRONTEND_VERSION = '9'
+FRONTEND_VERSION = '10'
 
 
 class AnalysisBroken(Exception):
@@ -373,8 +373,12 @@ class _Reducer(object):
         if kind == 'FunctionDecl':
             params = [c for c in ch if c.k == 'parm']
             body = [c for c in ch if c.k == 'block']
+            storage = d.get('storageClass')
+            prevd = self.decls.get(d.get('previousDecl'))
+            if storage is None and prevd is not None and prevd.x and prevd.x.get('storage') == 'static':
+                storage = 'static'      # linkage is inherited from the earlier declaration (C11 6.2.2p5)
             n = N('func', d.get('name'), ty, loc, params + body,
-                  {'id': d.get('id'), 'storage': d.get('storageClass'), 'inline': d.get('inline', False),
+                  {'id': d.get('id'), 'storage': storage, 'inline': d.get('inline', False),
                    'hasbody': bool(body), 'nparams': len(params), 'prev': d.get('previousDecl'),
                    'unit': self.unit})
             self.decls[d.get('id')] = n
